@@ -14,7 +14,8 @@ is left alone and the rules judge the tree as it is."""
 import ast
 import copy
 
-PURE_CALLS = ('len', 'int', 'min', 'max', 'abs', 'ord', 'bool', 'roundup', 'sizeof', 'initial_length_field_size', 'isinstance', 'tuple', 'bytes2str')
+PURE_CALLS = ('len', 'int', 'min', 'max', 'abs', 'ord', 'chr', 'hex', 'str', 'repr', 'bool', 'bytes', 'roundup', 'sizeof', 'initial_length_field_size',
+              'isinstance', 'tuple', 'bytes2str', 'bytes2hex', 'startswith', 'endswith', 'get', 'format')
 
 
 def _is_doc(st):
